@@ -247,6 +247,11 @@ Section Scripts.
     | _, _ => None
     end.
 
+  (* what a wrapper's script returns for a result of type t at step s; errors are nil on even steps
+     (a wrapper returning a nil error is the common case in real chains) *)
+  Definition wrap_ret (pid s t : nat) : val :=
+    if (t =? te_errorT te) && Nat.even s then VZero t else mkval te false pid s t.
+
   Fixpoint wrap_tree (sc : script) (n k : nat) (w : sw) (last : option (list val)) : wtree sw :=
     match n with
     | 0 =>
@@ -255,9 +260,9 @@ Section Scripts.
                     match (if sc_passthru sc then last else None) with
                     | Some r => match first_of t (sc_innerOuts sc) r with
                                 | Some v => v
-                                | None => mkval te false (sc_pid sc) s t
+                                | None => wrap_ret (sc_pid sc) s t
                                 end
-                    | None => mkval te false (sc_pid sc) s t
+                    | None => wrap_ret (sc_pid sc) s t
                     end) (sc_outs sc) in
       WRet (mkSw s (sw_cache w) (ELeave (sc_pid sc) rets :: sw_log w)) rets
     | S n' =>
